@@ -291,7 +291,7 @@ class CallMixin:
         saved = (self.loop_ord, self.inline_loops, getattr(self, "inline_mod", None), self.exc_out)
         self.loop_ord = {}
         for k, n in enumerate(self._loops_in_order(fi.node)):
-            self.loop_ord[id(n)] = k
+            self.loop_ord[n if isinstance(n, tuple) else id(n)] = k
         self.inline_loops = c.loops if c is not None else {}
         self.inline_mod = (saved[2] or []) + [fi.module]
         self.inline_depth += 1
